@@ -1,6 +1,7 @@
 package main
 
 import (
+	"bytes"
 	"encoding/binary"
 	"hash/crc32"
 )
@@ -162,3 +163,253 @@ func refAlg(alg string, b []byte) uint64 {
 }
 
 var _ = binary.BigEndian
+
+// ---- Go-side renderer of the PINNED schema (independent of the library's encoder and of the Lean model) ----
+// renderPinned returns the bytes the pinned schema prescribes for a value (computing a self-measuring frame's length
+// and checksum itself), or ok=false when the value cannot be rendered (a prefix overflows, an absent body that the
+// schema cannot fill in, an unknown key).
+func renderPinned(v *Val) (out []byte, ok bool) {
+	defer func() {
+		if r := recover(); r != nil {
+			out, ok = nil, false
+		}
+	}()
+	return renderMsg(v)
+}
+
+func padOrCut(n int, pad byte, left bool, s []byte) []byte {
+	if len(s) > n {
+		return append([]byte{}, s[:n]...)
+	}
+	fill := bytes.Repeat([]byte{pad}, n-len(s))
+	if left {
+		return append(fill, s...)
+	}
+	return append(append([]byte{}, s...), fill...)
+}
+
+func prefixed(w int, e string, n int, payload []byte) ([]byte, bool) {
+	if w < 8 && uint64(n) > maxOf(w) {
+		return nil, false
+	}
+	b := make([]byte, w)
+	putUint(b, e, uint64(n))
+	return append(b, payload...), true
+}
+
+func lookupEntry(tb *Table, key *Val) (int, bool) {
+	ty, found := 0, false
+	for _, e := range tb.Entries { // last registration wins
+		if valEq(keyVal(tb, e), key) {
+			ty, found = e.Ty, true
+		}
+	}
+	return ty, found
+}
+
+func zeroValOf(ty int) *Val {
+	t := schema.Types[ty]
+	v := &Val{K: 'm', Ty: ty}
+	for _, op := range t.fieldOps() {
+		switch op.K {
+		case "scalar":
+			v.Fs = append(v.Fs, &Val{K: 'n'})
+		case "fixed", "vstr":
+			v.Fs = append(v.Fs, &Val{K: 's'})
+		case "nums":
+			v.Fs = append(v.Fs, &Val{K: 'N'})
+		case "fixeds", "vstrs":
+			v.Fs = append(v.Fs, &Val{K: 'S'})
+		case "objs":
+			v.Fs = append(v.Fs, &Val{K: 'M'})
+		case "nested":
+			if op.G == "val" {
+				v.Fs = append(v.Fs, zeroValOf(op.Ty))
+			} else {
+				v.Fs = append(v.Fs, &Val{K: 'z'})
+			}
+		default:
+			v.Fs = append(v.Fs, &Val{K: 'z'})
+		}
+	}
+	return v
+}
+
+func renderPtr(g string, body *Val, ty int, tyOK bool) ([]byte, bool) {
+	if body.K == 'm' {
+		return renderMsg(body)
+	}
+	switch g {
+	case "skip":
+		return nil, true
+	case "mat":
+		if !tyOK {
+			return nil, false
+		}
+		return renderMsg(zeroValOf(ty))
+	}
+	return nil, false
+}
+
+func renderField(op Op, encG string, f *Val, all []*Val) ([]byte, bool) {
+	switch op.K {
+	case "scalar":
+		b := make([]byte, op.W)
+		putUint(b, op.E, f.N)
+		return b, true
+	case "fixed":
+		return padOrCut(op.N, byte(op.Pad), op.Left, f.S), true
+	case "vstr":
+		return prefixed(op.PW, op.E, len(f.S), f.S)
+	case "nums":
+		var p []byte
+		for _, n := range f.Ns {
+			b := make([]byte, op.W)
+			putUint(b, op.E, n)
+			p = append(p, b...)
+		}
+		return prefixed(op.CW, op.E, len(f.Ns), p)
+	case "fixeds":
+		var p []byte
+		for _, s := range f.Ss {
+			p = append(p, padOrCut(op.N, byte(op.Pad), op.Left, s)...)
+		}
+		return prefixed(op.CW, op.E, len(f.Ss), p)
+	case "vstrs":
+		var p []byte
+		for _, s := range f.Ss {
+			e, ok := prefixed(op.PW, op.E, len(s), s)
+			if !ok {
+				return nil, false
+			}
+			p = append(p, e...)
+		}
+		return prefixed(op.CW, op.E, len(f.Ss), p)
+	case "nested":
+		return renderPtr(encG, f, op.Ty, true)
+	case "objs":
+		var p []byte
+		for _, e := range f.Fs {
+			b, ok := renderMsg(e)
+			if !ok {
+				return nil, false
+			}
+			p = append(p, b...)
+		}
+		return prefixed(op.CW, op.E, len(f.Fs), p)
+	case "union":
+		ty, ok := lookupEntry(schema.Tables[op.Tbl], all[op.Key])
+		return renderPtr(encG, f, ty, ok)
+	}
+	return nil, false
+}
+
+func renderMsg(v *Val) ([]byte, bool) {
+	if v.K != 'm' {
+		return nil, false
+	}
+	t := schema.Types[v.Ty]
+	ops := t.fieldOps()
+	if len(ops) != len(v.Fs) {
+		return nil, false
+	}
+	var out []byte
+	if t.Frame == nil {
+		for i, op := range ops {
+			g := op.G
+			if i < len(t.Enc) {
+				g = t.Enc[i].G
+			}
+			b, ok := renderField(op, g, v.Fs[i], v.Fs)
+			if !ok {
+				return nil, false
+			}
+			out = append(out, b...)
+		}
+		return out, true
+	}
+	f := t.Frame
+	nh := len(f.Hdr)
+	for i := 0; i < nh; i++ {
+		b, ok := renderField(f.Hdr[i], "", v.Fs[i], v.Fs)
+		if !ok {
+			return nil, false
+		}
+		out = append(out, b...)
+	}
+	ty, tyOK := lookupEntry(schema.Tables[f.Tbl], v.Fs[f.Key])
+	body, ok := renderPtr(f.G, v.Fs[nh+1], ty, tyOK)
+	if !ok {
+		return nil, false
+	}
+	lb := make([]byte, 4)
+	putUint(lb, f.E, uint64(len(body))&0xFFFFFFFF)
+	out = append(append(out, lb...), body...)
+	if f.Cks != "" {
+		cb := make([]byte, f.CksW)
+		putUint(cb, f.E, refAlg(f.Cks, out))
+		out = append(out, cb...)
+	}
+	return out, true
+}
+
+// IntSpan: one multi-byte integer of an encoding (scalar field, count / length prefix, numeric list element), where
+// the pinned layout puts it and which value it must hold.
+type IntSpan struct {
+	Off, W int
+	E      string
+	Val    uint64
+}
+
+func intSpansMsg(v *Val, off int, spans *[]IntSpan) int {
+	t := schema.Types[v.Ty]
+	start := off
+	for i, op := range t.fieldOps() {
+		off += intSpansField(op, v.Fs[i], off, spans)
+	}
+	return off - start
+}
+
+func intSpansField(op Op, v *Val, off int, spans *[]IntSpan) int {
+	add := func(o, w int, e string, val uint64) { *spans = append(*spans, IntSpan{o, w, e, val}) }
+	switch op.K {
+	case "scalar":
+		add(off, op.W, op.E, v.N)
+		return op.W
+	case "fixed":
+		return op.N
+	case "vstr":
+		add(off, op.PW, op.E, uint64(len(v.S)))
+		return op.PW + len(v.S)
+	case "nums":
+		add(off, op.CW, op.E, uint64(len(v.Ns)))
+		for k, n := range v.Ns {
+			add(off+op.CW+k*op.W, op.W, op.E, n)
+		}
+		return op.CW + len(v.Ns)*op.W
+	case "fixeds":
+		add(off, op.CW, op.E, uint64(len(v.Ss)))
+		return op.CW + len(v.Ss)*op.N
+	case "vstrs":
+		add(off, op.CW, op.E, uint64(len(v.Ss)))
+		n := op.CW
+		for _, s := range v.Ss {
+			add(off+n, op.PW, op.E, uint64(len(s)))
+			n += op.PW + len(s)
+		}
+		return n
+	case "nested", "union":
+		if v.K != 'm' {
+			return 0
+		}
+		return intSpansMsg(v, off, spans)
+	case "objs":
+		add(off, op.CW, op.E, uint64(len(v.Fs)))
+		n := op.CW
+		for _, e := range v.Fs {
+			n += intSpansMsg(e, off+n, spans)
+		}
+		return n
+	}
+	return 0
+}
